@@ -514,12 +514,323 @@ def analyse_dm():
     return defs
 
 
+# ---------------------------------------------------------------- who writes the shared settings struct
+SETTINGS_FILES = ["src/DTAIDistanceC/DTAIDistanceC/dd_dtw.c", "src/DTAIDistanceC/DTAIDistanceC/dd_dtw_openmp.c",
+                  "src/DTAIDistanceC/DTAIDistanceC/dd_ed.c"]
+
+
+def analyse_settings_writers():
+    """Every C function that stores through a `DTWSettings *` parameter (p->f = ..., ++, +=, *p = ..., (*p).f = ...,
+    or hands out &p->f), and every function that calls one of those.  All pairs of a distance matrix - the OpenMP
+    loops included - run the kernels on ONE shared settings struct: a kernel that writes it makes a result depend
+    on the schedule and on the pairs computed before (first seeded change of C02).  Fail-closed: fewer than 40
+    recognised functions with such a parameter is an error."""
+    bodies = {}
+    writers = []
+    seen = 0
+    for f in SETTINGS_FILES:
+        txt = strip_comments(open(os.path.join(REPO, f)).read())
+        for m in re.finditer(r"^[A-Za-z_][\w \t\*]*?\b(\w+)\s*\(([^;{}]*?)\)\s*\{", txt, flags=re.M | re.S):
+            name, params = m.group(1), m.group(2)
+            if name in ("if", "for", "while", "switch"):
+                continue
+            start = m.end() - 1
+            body = txt[start:match_brace(txt, start) + 1]
+            bodies[name] = body
+            ptrs = re.findall(r"DTWSettings\s*\*\s*(\w+)", params)
+            if not ptrs:
+                continue
+            seen += 1
+            for am in re.finditer(r"DTWSettings\s*\*\s*(\w+)\s*=\s*(\w+)\s*;", body):
+                if am.group(2) in ptrs:
+                    ptrs.append(am.group(1))
+            w = False
+            for q in ptrs:
+                q = re.escape(q)
+                pats = [r"(?<![\w>\.])%s\s*->\s*\w+\s*(\+\+|--|\+=|-=|\*=|/=|=(?!=))" % q,
+                        r"(\+\+|--)\s*%s\s*->" % q,
+                        r"\*\s*%s\s*=(?!=)" % q,
+                        r"\(\s*\*\s*%s\s*\)\s*\.\s*\w+\s*(\+\+|--|\+=|-=|\*=|/=|=(?!=))" % q,
+                        r"(?<![&\w\)])&\s*%s\s*->" % q]
+                if any(re.search(pt, body) for pt in pats):
+                    w = True
+            if w:
+                writers.append(name)
+    if seen < 40:
+        raise TranslateError("only %d functions with a DTWSettings* parameter recognised" % seen)
+    writers = sorted(set(writers))
+    callers = sorted(n for n, b in bodies.items()
+                     if any(re.search(r"\b%s\s*\(" % re.escape(w), b) for w in writers if w != n))
+    return writers, callers, seen
+
+
+# ---------------------------------------------------------------- the fill loops of the compact warping-paths array
+FILL_KERNELS=["dtw_warping_paths_ndim","dtw_warping_paths_ndim_euclidean","dtw_warping_paths_affinity_ndim","dtw_warping_paths_affinity_ndim_euclidean"]
+TRACKED=("min_ci","max_ci","wpsi_start")
+
+def fill_func_body(txt,name):
+    m=re.search(r"^seq_t\s+%s\s*\(([^;{}]*?)\)\s*\{"%re.escape(name),txt,flags=re.M|re.S)
+    if not m: raise TranslateError("function %s not found"%name)
+    st=m.end()-1
+    return txt[st:match_brace(txt,st)+1]
+
+def region_loops(body, name):
+    out=[]
+    for m in re.finditer(r"for\s*\(\s*ri\s*=\s*([^;]+);\s*ri\s*<\s*([^;]+);\s*ri\+\+\s*\)\s*\{",body):
+        d=body[:m.start()].count("{")-body[:m.start()].count("}")
+        if d!=1: continue
+        b=m.end()-1
+        out.append((m.start(),b,match_brace(body,b),m.group(1).strip(),m.group(2).strip()))
+    want=[("0","p.ri1"),("p.ri1","p.ri2"),("p.ri2","p.ri3"),("p.ri3","l1")]
+    regs=[l for l in out if (l[3],l[4]) in want]
+    if [(l[3],l[4]) for l in regs]!=want:
+        raise TranslateError("%s: region loops A,B,C,D not found in order: %s"%(name,[(l[3],l[4]) for l in out]))
+    return regs
+
+def cx(t):
+    return c_expr(t.replace("p.","").replace("settings->",""))[0]
+
+def subst(coq, state):
+    for v in TRACKED:
+        if re.search(r"\b%s\b"%v, coq):
+            if state.get(v) is None: raise TranslateError("use of %s before it is set"%v)
+            coq=re.sub(r"\b%s\b"%v, lambda m: state[v], coq)
+    return coq
+
+def exec_block(text, state, where):
+    """straight-line code with if/else over the tracked variables; everything else must not mention them"""
+    i=0; n=len(text)
+    while i<n:
+        m=re.match(r"\s+",text[i:])
+        if m: i+=m.end(); continue
+        if re.match(r"if\b",text[i:]):
+            p0=text.index("(",i); depth=0
+            for k in range(p0,n):
+                if text[k]=="(": depth+=1
+                elif text[k]==")":
+                    depth-=1
+                    if depth==0: break
+            cond=text[p0+1:k]
+            j=k+1
+            mm=re.match(r"\s*\{",text[j:])
+            if not mm: raise TranslateError("%s: if without braces"%where)
+            b=j+mm.end()-1; e=match_brace(text,b)
+            then=text[b+1:e]; j=e+1
+            els=None
+            mm=re.match(r"\s*else\s*\{",text[j:])
+            if mm:
+                b2=j+mm.end()-1; e2=match_brace(text,b2); els=text[b2+1:e2]; j=e2+1
+            if any(re.search(r"\b%s\b"%v, then+(els or "")) for v in TRACKED):
+                mc=re.fullmatch(r"\s*([^=<>!]+?)\s*(==|!=|<|>)\s*([^=<>!]+?)\s*",cond)
+                if not mc: raise TranslateError("%s: condition %r not understood"%(where,cond))
+                a,op,bb=subst(cx(mc.group(1)),state),mc.group(2),subst(cx(mc.group(3)),state)
+                test={"==":"%s =? %s","!=":"negb (%s =? %s)","<":"%s <? %s",">":"%s >? %s"}[op]%(a,bb)
+                s1=dict(state); exec_block(then,s1,where)
+                s2=dict(state)
+                if els is not None: exec_block(els,s2,where)
+                for v in TRACKED:
+                    if s1.get(v)!=s2.get(v):
+                        if s1.get(v) is None or s2.get(v) is None: raise TranslateError("%s: %s set in one branch only"%(where,v))
+                        state[v]="(if %s then %s else %s)"%(test,s1[v],s2[v])
+                    else: state[v]=s1.get(v)
+            i=j; continue
+        if re.match(r"(for|while)\b",text[i:]):
+            p0=text.index("(",i); depth=0
+            for k in range(p0,n):
+                if text[k]=="(": depth+=1
+                elif text[k]==")":
+                    depth-=1
+                    if depth==0: break
+            j=k+1
+            mm=re.match(r"\s*\{",text[j:])
+            if not mm: raise TranslateError("%s: loop without braces"%where)
+            b=j+mm.end()-1; e=match_brace(text,b)
+            chunk=text[i:e+1]
+            if re.search(r"\b(%s)\s*(=(?!=)|\+\+|--|\+=|-=)"%"|".join(TRACKED),chunk):
+                raise TranslateError("%s: tracked variable assigned inside a loop"%where)
+            i=e+1; continue
+        if text[i]=="{":
+            e=match_brace(text,i); exec_block(text[i+1:e],state,where); i=e+1; continue
+        j=text.find(";",i)
+        if j<0:
+            if text[i:].strip(): raise TranslateError("%s: trailing text %r"%(where,text[i:][:40]))
+            break
+        st=text[i:j].strip(); i=j+1
+        m=re.fullmatch(r"(%s)\s*=\s*(.+)"%"|".join(TRACKED),st,flags=re.S)
+        if m: state[m.group(1)]=subst(cx(m.group(2)),state); continue
+        m=re.fullmatch(r"(%s)\s*\+\+"%"|".join(TRACKED),st)
+        if m: state[m.group(1)]="(%s + 1)"%state[m.group(1)]; continue
+        if re.match(r"(idx_t|seq_t|int|bool|DTWWps)\b",st) and not re.search(r"\b(%s)\s*="%"|".join(TRACKED),st): continue
+        if any(re.search(r"\b%s\b\s*(=(?!=)|\+\+|--|\+=|-=)"%v,st) for v in TRACKED):
+            raise TranslateError("%s: statement %r not understood"%(where,st))
+    return state
+
+def depth1(body_inner):
+    """text of a loop body with nested blocks blanked"""
+    out=[];d=0
+    for ch in body_inner:
+        if ch=="{": d+=1
+        if d==0: out.append(ch)
+        else: out.append(" " if ch!="\n" else "\n")
+        if ch=="}": d-=1
+    return "".join(out)
+
+def analyse_region(kernel, R, pre, inner):
+    where="%s region %s"%(kernel,R)
+    d1=depth1(inner)
+    if len(re.findall(r"\bci\s*=\s*min_ci\s*;",d1))!=1: raise TranslateError(where+": `ci = min_ci;` expected once")
+    ws=re.findall(r"\bwpsi\s*=\s*([^;]+);",d1)
+    if len(ws)!=1: raise TranslateError(where+": one `wpsi = ...;` expected at loop level, found %s"%ws)
+    wpsi0=ws[0].strip()
+    if wpsi0 not in ("1","wpsi_start"): raise TranslateError(where+": wpsi initialised with %r"%wpsi0)
+    incs=set(re.findall(r"\b(min_ci|max_ci|wpsi_start)\s*\+\+\s*;",d1))
+    other=[v for v in TRACKED if re.search(r"\b%s\s*(=(?!=)|--|\+=|-=)"%v, inner)]
+    if other: raise TranslateError(where+": %s assigned inside the row loop"%other)
+    if len(re.findall(r"\bri_widthp\s*=\s*ri_width\s*;",d1))!=1 or len(re.findall(r"\bri_width\s*\+=\s*p\.width\s*;",d1))!=1:
+        raise TranslateError(where+": row offsets are not advanced by `ri_widthp = ri_width; ri_width += p.width;`")
+    # the cell loop
+    cl=[m for m in re.finditer(r"for\s*\(\s*;\s*([^;]+);\s*ci\+\+\s*\)\s*\{",inner)]
+    norm=lambda t: re.sub(r"\s+","",t)
+    main=[m for m in cl if norm(m.group(1)) in ("ci<max_ci","ci<l2")]
+    if len(main)!=1: raise TranslateError(where+": cell loop not found")
+    hi=norm(main[0].group(1))[3:]
+    b=main[0].end()-1; cell=inner[b:match_brace(inner,b)+1]
+    # skip loops before the cell loop (pruning: ci<sc ; affinity only_triu: ci<ri ...): each writes wps[ri_width + wpsi] and advances wpsi
+    skips=[]
+    for m in cl:
+        if m is main[0]: continue
+        if m.start()>main[0].start(): raise TranslateError(where+": loop over ci after the cell loop")
+        bb=m.end()-1; sk=inner[bb:match_brace(inner,bb)+1]
+        if not re.fullmatch(r"\{\s*wps\[ri_width \+ wpsi\]\s*=\s*-?INFINITY;\s*wpsi\+\+;\s*\}",sk):
+            raise TranslateError(where+": skip loop body %r"%sk)
+        c=norm(m.group(1))
+        if c=="ci<sc": skips.append("sc")
+        elif c in ("ci<ri&&ci<"+hi,"ci<"+hi+"&&ci<ri","ci<MIN(ri,"+hi+")","ci<MIN("+hi+",ri)"): skips.append("ri&bound")
+        elif c=="ci<ri": skips.append("ri")
+        else: raise TranslateError(where+": skip loop condition %r"%c)
+    if len(skips)!=1: raise TranslateError(where+": %d skip loops"%len(skips))
+    # every wps[...] index in the row loop
+    idx=sorted(set(re.sub(r"\s+","",x) for x in re.findall(r"wps\[([^\]]+)\]",inner)))
+    allowed={"ri_width+wpsi":("cur",0),"ri_width+wpsi-1":("cur",-1),"ri_widthp+wpsi-1":("prev",-1),"ri_widthp+wpsi":("prev",0),
+             "ri_widthp+wpsi+1":("prev",1),"ri_width":("row0",0),"i":("i",0)}
+    for x in idx:
+        if x not in allowed: raise TranslateError(where+": index wps[%s] not understood"%x)
+    # reads of the recurrence: the three arguments of MIN3/MAX3
+    m3=re.search(r"(MIN3|MAX3)\s*\(",cell)
+    if not m3: raise TranslateError(where+": MIN3/MAX3 not found")
+    p0=m3.end()-1; depth=0
+    for k in range(p0,len(cell)):
+        if cell[k]=="(": depth+=1
+        elif cell[k]==")":
+            depth-=1
+            if depth==0: break
+    args=split_args(cell[p0+1:k])
+    if len(args)!=3: raise TranslateError(where+": MIN3/MAX3 with %d arguments"%len(args))
+    offs=[]
+    for a in args:
+        mm=re.findall(r"wps\[([^\]]+)\]",a)
+        if len(mm)!=1: raise TranslateError(where+": argument %r"%a)
+        offs.append(allowed[re.sub(r"\s+","",mm[0])])
+    if offs[0]!=("cur",-1): raise TranslateError(where+": first argument is not the left neighbour")
+    if offs[1][0]!="prev" or offs[2][0]!="prev": raise TranslateError(where+": diagonal/up arguments")
+    # loops over i: the head fill (D) and the tail fill
+    iloops=re.findall(r"for\s*\(\s*idx_t\s+i\s*=\s*([^;]+);\s*i\s*<\s*([^;]+);\s*i\+\+\s*\)",inner)
+    iloops=[(re.sub(r"\s+","",a),re.sub(r"\s+","",b)) for a,b in iloops]
+    tail=("ri_width+wpsi","ri_width+p.width"); head=("ri_width","(ri_width+wpsi)")
+    if tail not in iloops: raise TranslateError(where+": tail fill loop not found")
+    for l in iloops:
+        if l not in (tail,head): raise TranslateError(where+": loop over i %r not understood"%(l,))
+    state=exec_block(pre,{},where)
+    return {"min_ci0":state.get("min_ci"),"max_ci0":state.get("max_ci") if hi=="max_ci" else "l2","hi_is_l2":hi=="l2",
+            "wpsi0": "1" if wpsi0=="1" else state.get("wpsi_start"),
+            "d_min": 1 if "min_ci" in incs else 0, "d_max": 1 if ("max_ci" in incs and hi=="max_ci") else 0,
+            "d_wpsi": 1 if ("wpsi_start" in incs and wpsi0=="wpsi_start") else 0,
+            "off_diag":offs[1][1],"off_up":offs[2][1],"head_fill":head in iloops,"row0_store":"ri_width" in idx,"skips":skips}
+
+def analyse_fill():
+    txt=strip_comments(open(os.path.join(REPO,"src/DTAIDistanceC/DTAIDistanceC/dd_dtw.c")).read())
+    res={}
+    for k in FILL_KERNELS:
+        body=fill_func_body(txt,k)
+        regs=region_loops(body,k)
+        scs=sorted(set(re.sub(r"\s+"," ",x.strip()) for x in re.findall(r"(?<![\w\.>])sc\s*=(?!=)\s*([^;]+);",body)))
+        res[("sc",k)]=scs
+        prev_end=None
+        for R,(s,b,e,lo,hi) in zip("ABCD",regs):
+            if prev_end is None:
+                # region A: from the last top-level statement that sets ri_width before the loop
+                m=list(re.finditer(r"idx_t\s+ri_widthp\s*=\s*0\s*;",body[:s]))
+                if len(m)!=1: raise TranslateError(k+": `idx_t ri_widthp = 0;` expected once before region A")
+                pre=body[m[0].end():s]
+                if not re.search(r"idx_t\s+ri_width\s*=\s*p\.width\s*;",pre): raise TranslateError(k+": ri_width not initialised with p.width")
+            else:
+                pre=body[prev_end+1:s]
+            res[(k,R)]=analyse_region(k,R,pre,body[b+1:e])
+            prev_end=e
+    return res
+
+ARGS="(l2 window ldiff ldiffr ldiffc ri2 ri3 : Z)"
+def emit_fill(res):
+    lines=["(* GENERATED by tools/translate_c.py from src/DTAIDistanceC/DTAIDistanceC/dd_dtw.c -- do not edit *)",
+           "(* the four row regions (A, B, C, D) of the loops that fill the compact warping-paths array *)",
+           "From Coq Require Import ZArith Bool String List.","Import ListNotations.","Open Scope Z_scope.","",
+           "Inductive region_id := RA | RB | RC | RD.","","Record fill_region := {","  fr_kernel : string; fr_region : region_id;",
+           "  fr_min0 : Z -> Z -> Z -> Z -> Z -> Z -> Z -> Z;   (* min_ci before the row loop *)",
+           "  fr_max0 : Z -> Z -> Z -> Z -> Z -> Z -> Z -> Z;   (* bound of the cell loop before the row loop (l2 when the loop runs to l2) *)",
+           "  fr_wpsi0 : Z -> Z -> Z -> Z -> Z -> Z -> Z -> Z;  (* slot of column min_ci in the first row of the region *)",
+           "  fr_dmin : Z; fr_dmax : Z; fr_dwpsi : Z;           (* per-row increments *)",
+           "  fr_offdiag : Z; fr_offup : Z;                     (* previous-row read offsets relative to the slot *)",
+           "  fr_head_fill : bool; fr_row0_store : bool; fr_skip : string }.","",
+           "Definition fill_regions : list fill_region := ["]
+    rows=[]
+    scs={k[1]:v for k,v in res.items() if k[0]=="sc"}
+    res={k:v for k,v in res.items() if k[0]!="sc"}
+    for (k,R),v in res.items():
+        f=lambda e: "(fun %s => %s)"%(ARGS[1:-5].strip(), e)
+        rows.append('  {| fr_kernel := "%s"; fr_region := R%s;\n     fr_min0 := fun l2 window ldiff ldiffr ldiffc ri2 ri3 => %s;\n     fr_max0 := fun l2 window ldiff ldiffr ldiffc ri2 ri3 => %s;\n     fr_wpsi0 := fun l2 window ldiff ldiffr ldiffc ri2 ri3 => %s;\n     fr_dmin := %d; fr_dmax := %d; fr_dwpsi := %d; fr_offdiag := %s; fr_offup := %s;\n     fr_head_fill := %s; fr_row0_store := %s; fr_skip := "%s" |}'%(
+            k,R,v["min_ci0"],v["max_ci0"],v["wpsi0"],v["d_min"],v["d_max"],v["d_wpsi"],
+            "(%d)"%v["off_diag"],"(%d)"%v["off_up"],"true" if v["head_fill"] else "false","true" if v["row0_store"] else "false",",".join(v["skips"])))
+    lines.append(";\n".join(rows)); lines.append("].")
+    lines.append("")
+    lines.append("(* right-hand sides of every assignment to the pruning bound sc, per kernel *)")
+    lines.append("Open Scope string_scope.")
+    lines.append("Definition sc_assignments : list (string * list string) := [%s]."%"; ".join('("%s", [%s])'%(k,"; ".join('"%s"'%x for x in v)) for k,v in scs.items()))
+    return "\n".join(lines)+"\n"
+
+
 def coq_str_list(xs):
     return "[" + "; ".join('"%s"' % x for x in xs) + "]"
 
 
 def main():
     outdir = sys.argv[1] if len(sys.argv) > 1 else "/verif/coq/gen"
+    try:
+        text = emit_fill(analyse_fill())
+    except (TranslateError, OSError) as exc:
+        print("TRANSLATE-ERROR: translate_c: %s" % exc)
+        sys.exit(2)
+    os.makedirs(outdir, exist_ok=True)
+    p = os.path.join(outdir, "Gen_cfill.v")
+    old = open(p).read() if os.path.exists(p) else None
+    if old != text:
+        open(p, "w").write(text)
+    try:
+        writers, callers, seen = analyse_settings_writers()
+    except (TranslateError, OSError) as exc:
+        print("TRANSLATE-ERROR: translate_c: %s" % exc)
+        sys.exit(2)
+    text = "\n".join([
+        "(* GENERATED by tools/translate_c.py from dd_dtw.c, dd_dtw_openmp.c, dd_ed.c -- do not edit *)",
+        "From Coq Require Import String List.", "Import ListNotations.", "Open Scope string_scope.", "",
+        "(* functions that store through a DTWSettings* parameter, and functions that call one of them *)",
+        "Definition settings_writers : list string := %s." % coq_str_list(writers),
+        "Definition settings_writer_callers : list string := %s." % coq_str_list(callers),
+        "Definition settings_functions_seen : nat := %d." % seen]) + "\n"
+    os.makedirs(outdir, exist_ok=True)
+    p = os.path.join(outdir, "Gen_creent.v")
+    old = open(p).read() if os.path.exists(p) else None
+    if old != text:
+        open(p, "w").write(text)
     try:
         loops = analyse()
     except (TranslateError, OSError) as exc:
